@@ -83,6 +83,11 @@ def _handle_literal(value: Union[str, int, float, bool]):
     return str(value)
 
 
+def _format_constant(value: Any) -> str:
+    """A constant as it is written in a script: null, or the literal of its own type."""
+    return "null" if value is None else _handle_literal(value)
+
+
 def _format_dataset_eval(dataset: Dataset) -> str:
     def __format_component(component: Component) -> str:
         return (
@@ -271,13 +276,13 @@ class ASTString(ASTTemplate):
             clause_str = ""
             if clause.name is not None:
                 clause_str += f"{clause.name} : "
-            values_str = " and ".join([f'"{v}"' for v in clause.values])
-            clause_str += f'when {values_str} then "{clause.result}"'
+            values_str = " and ".join([_format_constant(v) for v in clause.values])
+            clause_str += f"when {values_str} then {_format_constant(clause.result)}"
             clauses_strs.append(clause_str)
         if node.aggregate_clause is not None:
             clauses_strs.append(f"aggregate {node.aggregate_clause.function}")
         if node.default_value is not None:
-            clauses_strs.append(f'else "{node.default_value}"')
+            clauses_strs.append(f"else {_format_constant(node.default_value)}")
 
         if self.pretty:
             self.vtl_script += (
